@@ -318,9 +318,9 @@ def r02_6(run):
         if ok:
             key = src(r.slice)
             for n in g.nodes_containing(c):
-                guards = g.guarded_by(n, lambda t: isinstance(t, ast.Compare) and len(t.ops) == 1 and isinstance(t.ops[0], ast.In)
+                guards = g.guarded_by(n, lambda t: isinstance(t, ast.Compare) and len(t.ops) == 1 and isinstance(t.ops[0], (ast.In, ast.NotIn))
                                       and dotted(t.comparators[0]) == 'self.events' and src(t.left) == key)
-                run.ob('R02.6', hn, c, 'dispatch guarded by "name in self.events"', any(lab == 'T' for _, lab in guards), slot='dispatch-guard',
+                run.ob('R02.6', hn, c, 'dispatch guarded by "name in self.events"', any((lab == 'T') == isinstance(t.ast.ops[0], ast.In) for t, lab in guards), slot='dispatch-guard',
                        message='got_update reachable for names without listeners')
     # exact payload: the text after the name and its one separator; whitespace-splitting collapses blank runs / blank first lines
     rest = hn.params[2] if len(hn.params) > 2 else None
@@ -328,7 +328,7 @@ def r02_6(run):
     for c in calls_in(hn):
         if callee_attr(c) != 'got_update' or not c.args:
             continue
-        a = c.args[0]
+        a = c01._resolve_name(defs, c.args[0])
         r = receiver(c)
         key = src(r.slice) if isinstance(r, ast.Subscript) else None
         exact = isinstance(a, ast.Subscript) and dotted(a.value) == rest and isinstance(a.slice, ast.Slice) and a.slice.upper is None \
@@ -390,6 +390,7 @@ MUTANTS = [
     M('dispatch-unguarded', F, "        if name in self.events:\n            self.events[name].got_update", "        if name in self.valid_events:\n            self.valid_events[name].got_update", ['R02.6']),
 ]
 TWINS = [
+    M('notify-early-return-named-payload', F, "        if name in self.events:\n            self.events[name].got_update(rest[len(name) + 1:])\n            return\n", "        if name not in self.events:\n            return\n        payload = rest[len(name) + 1:]\n        self.events[name].got_update(payload)\n"),
     M('unlisten-by-equality-filter', F, "        self.callbacks.remove(cb)", "        self.callbacks = [c for c in self.callbacks if c != cb]"),
     M('lost-resets-accumulator', F, "        self.command = None\n        self.defer = None\n        self.commands = []\n", "        self.command = None\n        self.defer = None\n        self.response = ''\n        self.commands = []\n"),
     M('tuple-snapshot', F, "for cb in list(self.callbacks):", "for cb in tuple(self.callbacks):"),
